@@ -31,6 +31,27 @@ CHECKS = {
     "C17": ("4/C17", "history monitor against the long-data accumulation model, unique chunk contents",
             "Interleavings of long-data chunks (sizes 0/1/random, one multi-packet chunk) over 3 statements x 4 parameter indexes with executions, double executions and out-of-range indexes; every execution's parameter list is compared with the model (concatenation in arrival order, delivered once, never to another statement).",
             "parameters supplied by long data carry no inline bytes, as the protocol prescribes"),
+    "C06": ("4/C06", "round-trip monitor: values written through the real server in text mode, decoded by the reference text-row decoder and parsed per written type; mysql_common as second parser; direct encoder sweeps",
+            "Resultsets of 1-30 mixed columns x 1-10 rows over every value type and hand-over form (by value, reference, Option, Option<&T>, &Option<T>, generic Value; write_col and write_row), compared as values (numbers, temporals) or byte for byte; every date of years 0..9999 (thorough: all 3.65 M, quick: stratified) and all 16-bit integers through the public encoder; one >16 MiB cell in thorough.",
+            "numeric/temporal text formatting is free: cells are compared as values; durations within MySQL's TIME range, microsecond precision"),
+    "C07": ("4/C07", "round-trip monitor over binary rows decoded with the advertised column types/flags; must-accept / must-refuse verdict table; ASan pass",
+            "Binary resultsets with 1..20, 62..65, 254..256, 300 (thorough 1000) columns, NULL patterns none/all/alternating/single/all-but-one/random, natural (value type, column type) pairs through every hand-over form; every row is decoded with the reference binary-row decoder (NULL bitmap offset 2, reserved bits clear) and mysql_common's; every case of the refuse group ends with one cross-kind value or NULL into NOT NULL, which must return Err.",
+            "integer width/signedness combinations are C15's; which legal temporal length form is used is free"),
+    "C08": ("4/C08", "model-vs-log monitor on the parameter list + conversion oracle (T::from(value) under catch_unwind); ASan + Miri passes",
+            "Executions with 0..300 parameters, all NULL-bitmap patterns, every decodable type code x unsigned flag, integer bounds, every legal DATE/DATETIME/TIME length form, strings across lenenc classes; coltype, raw value and the Rust conversion matching the bound type are compared with what the client encoded.",
+            "zero-length DATE/DATETIME have no chrono value: only the raw form is compared"),
+    "C09": ("4/C09", "round-trip monitor on ColumnDefinition41 / COM_STMT_PREPARE_OK decoded by the reference decoder and mysql_common's Column parser",
+            "Descriptor lists of 0..300 (thorough 1000) entries, names of 0/1/250/251/252/65535/65536 bytes incl. non-ASCII, every ColumnType variant, single/all/random flag words, edge statement ids; count, table, name, type and flags are compared in resultset headers and PREPARE replies.",
+            "catalog/schema/org_*/charset/length/decimals are free"),
+    "C13": ("4/C13", "round-trip monitor on ERR packets for every defined kind x reporting site; kinds re-read from the tree on every run; independent name/code and code/SQLSTATE facts",
+            "All ~886 error kinds x 10 reporting sites x adversarial messages through the real server, decoded by the reference and mysql_common ERR parsers; ErrorKind::from(code) round trips; 710 name=code pairs from the mysql client crate and 46 manual (code, SQLSTATE) facts as hard checks; SQLSTATE snapshot drift is only reported.",
+            "SQLSTATE correctness beyond the 46 facts is wire-vs-API equality"),
+    "C14": ("4/C14", "round-trip monitor on OK packets (reference + mysql_common decoders)",
+            "The full cross product of lenenc boundary values for (affected rows, last insert id) plus random pairs, single and chained, text and binary; zero-column resultsets with 0..70000 rows ended by end_row and by write_row.",
+            "status bits other than MORE_RESULTS and warning counts are free"),
+    "C15": ("4/C15", "direct-call monitor on the public ToMysqlValue::to_mysql_bin for every (Rust integer type, column, signedness, value); outcome classes exact / Err / loud panic; Miri pass",
+            "12 source types x 6 column types x 2 signedness; values exhaustive for 8/16-bit types, bounds/powers of two +-1/random for wider; accepted writes are decoded by wire width and signedness and must be exact; acceptance is mandatory when the column's range contains the fixed-width type's range (pointer-sized: the value); a sample goes through real rows.",
+            "an assert-panic is a loud refusal (allowed where acceptance is not mandatory); INT24's obligation range is 24 bits, exactness is judged on the 4 bytes sent"),
 }
 
 PENDING = {
